@@ -70,6 +70,36 @@ func reclaimQueues() []queueSetup {
 	}
 }
 
+// crossDeptScenarios: a reclaimer of one department whose victims sit in SEVERAL leaf queues of
+// another department that is only slightly above its deserved quota (fragmented over two nodes).
+func crossDeptScenarios(tier string) []clustermc.Scenario {
+	menu := []wlItem{
+		{"run-g1-qb", world.WL{Queue: "qb", Pods: pods(1, shG1, world.StRunning, "n1")}},
+		{"run-g1-qc", world.WL{Queue: "qc", Pods: pods(1, shG1, world.StRunning, "n1")}},
+		{"run-g1-n2-qc", world.WL{Queue: "qc", Pods: pods(1, shG1, world.StRunning, "n2")}},
+		{"run-g1-n2-qb", world.WL{Queue: "qb", Pods: pods(1, shG1, world.StRunning, "n2")}},
+		{"pend-g2-qa", world.WL{Queue: "qa", Pods: pods(1, shG2, "", "")}},
+		{"pend-gang2-qa", world.WL{Queue: "qa", MinMember: 2, Pods: pods(2, shG1, "", "")}},
+		{"pend-g1-qa", world.WL{Queue: "qa", Pods: pods(1, shG1, "", "")}},
+	}
+	u := world.QUnlimited()
+	g := func(q float64) world.QRes { return world.QRes{Quota: q, Limit: -1, Weight: 1} }
+	var qsets []queueSetup
+	for _, d2 := range []float64{1, 2, 3} {
+		d2 := d2
+		qsets = append(qsets, queueSetup{name("xdept-d1q2(qa2)-d2(qb1,qc1)-d2quota", []int{int(d2)}), func(b *world.Builder) {
+			for _, q := range []world.QueueOpt{{Name: "d1", GPU: g(2)}, {Name: "d2", GPU: g(d2)}, {Name: "qa", Parent: "d1", GPU: g(2)},
+				{Name: "qb", Parent: "d2", GPU: g(1)}, {Name: "qc", Parent: "d2", GPU: g(1)}} {
+				q.CPU, q.Mem = u, u
+				b.Queue(q)
+			}
+		}})
+	}
+	lay := []nodeLayout{{"2n-2+1gpu", []world.NodeOpt{{Name: "n1", CPU: "16", Mem: "32Gi", GPUs: 2, GPUMemMiB: 40000}, {Name: "n2", CPU: "16", Mem: "32Gi", GPUs: 1, GPUMemMiB: 40000}}},
+		{"2n-2+2gpu", []world.NodeOpt{{Name: "n1", CPU: "16", Mem: "32Gi", GPUs: 2, GPUMemMiB: 40000}, {Name: "n2", CPU: "16", Mem: "32Gi", GPUs: 2, GPUMemMiB: 40000}}}}
+	return wlScenarios(tier, menu, lay, qsets, []schedrun.Config{{}, {SaturationMultiplier: "1.5"}}, 4, 5)
+}
+
 func C07() *clustermc.Family {
 	return &clustermc.Family{
 		Property: "C07",
@@ -79,7 +109,7 @@ func C07() *clustermc.Family {
 				{"2n-3+1gpu", []world.NodeOpt{{Name: "n1", CPU: "16", Mem: "32Gi", GPUs: 3, GPUMemMiB: 40000}, {Name: "n2", CPU: "16", Mem: "32Gi", GPUs: 1, GPUMemMiB: 40000}}},
 			}
 			cfgs := []schedrun.Config{{}, {SaturationMultiplier: "1.5", ConsolidatingReclaim: true}}
-			return wlScenarios(tier, reclaimMenu(), lay, reclaimQueues(), cfgs, 3, 4)
+			return append(wlScenarios(tier, reclaimMenu(), lay, reclaimQueues(), cfgs, 3, 4), crossDeptScenarios(tier)...)
 		},
 		Depth: func(tier string) int {
 			if tier == "thorough" {
